@@ -30,6 +30,11 @@ static inline void __vf_fence(void) {}
 #define VF_ATOMIC_BEGIN() ((void)0)
 #define VF_ATOMIC_END() ((void)0)
 #endif
+/* scheduling hook emitted by ir2c after every cmpxchg / atomicrmw / atomic store (default: nothing); a harness that sequentialises a
+   stalled thread defines VF_YIELD() before including the translation */
+#ifndef VF_YIELD
+#define VF_YIELD() ((void)0)
+#endif
 static inline void __vf_trap(void) { __CPROVER_assume(0); }
 void __vf_unmodeled(const char *name);
 static inline void *__vf_typed_new(void *p, uint64_t asked, uint64_t have) { __CPROVER_assume(p != 0); __CPROVER_assert(asked <= have, "typed new: size"); return p; }
